@@ -263,7 +263,13 @@ func (ex *Exec) intrinsic(fn *ssa.Function, args []Value) (Value, bool) {
 		}
 		panic(pathAbort{why: "strconv.ParseFloat on symbolic input", incomplete: true})
 	case "strings.Split":
-		return ex.split(args[0].(*StringV), ex.mustStr(args[1], "strings.Split sep")), true
+		return ex.split(args[0].(*StringV), ex.mustStr(args[1], "strings.Split sep"), -1), true
+	case "strings.SplitN":
+		n, ok := args[2].(*Term)
+		if !ok || !n.isConst {
+			panic(pathAbort{why: "strings.SplitN with a symbolic count", incomplete: true})
+		}
+		return ex.split(args[0].(*StringV), ex.mustStr(args[1], "strings.SplitN sep"), int(int64(n.c))), true
 	case "strings.Contains":
 		return ex.contains(args[0].(*StringV), ex.mustStr(args[1], "strings.Contains substr")), true
 	case "strings.TrimSuffix":
@@ -434,11 +440,15 @@ func (ex *Exec) symAtoi(s *StringV) Value {
 	return Tuple{acc, (*IfaceV)(nil)}
 }
 
-func (ex *Exec) split(s *StringV, sep string) Value {
+// split is strings.SplitN (n < 0: all parts; n > 0: at most n parts, the last one unsplit).
+func (ex *Exec) split(s *StringV, sep string, n int) Value {
 	p := ex.pool
+	if n == 0 {
+		return (*SliceV)(nil)
+	}
 	if len(sep) != 1 {
 		if str, ok := ex.concreteStr(s); ok {
-			parts := strings.Split(str, sep)
+			parts := strings.SplitN(str, sep, n)
 			arr := &ArrayV{}
 			for _, x := range parts {
 				arr.e = append(arr.e, &Cell{v: ex.strVal(x)})
@@ -450,6 +460,9 @@ func (ex *Exec) split(s *StringV, sep string) Value {
 	var parts []*StringV
 	start := 0
 	for i, b := range s.b {
+		if n > 0 && len(parts) == n-1 {
+			break
+		}
 		if ex.branch(p.Bin("=", b, p.BV(8, uint64(sep[0])))) {
 			parts = append(parts, &StringV{b: s.b[start:i]})
 			start = i + 1
